@@ -192,7 +192,8 @@ def equal_jitter(base_s: float = 0.25, max_s: float = 30.0) -> StrategyFn:
     """
 
     def f(attempt: int, klass: ErrorClass, prev_sleep: float | None) -> float:
-        cap = min(max_s, base_s * (2.0**attempt))
+        # 2.0**attempt raises OverflowError from attempt 1024 on; the cap is max_s long before.
+        cap = min(max_s, base_s * (2.0 ** min(attempt, 1023)))
         return cap / 2.0 + random.uniform(0.0, cap / 2.0)
 
     return f
@@ -207,7 +208,8 @@ def token_backoff(base_s: float = 0.25, max_s: float = 20.0) -> StrategyFn:
     """
 
     def f(attempt: int, klass: ErrorClass, prev_sleep: float | None) -> float:
-        cap = min(max_s, base_s * (1.5**attempt))
+        # 1.5**attempt raises OverflowError from attempt 1751 on; the cap is max_s long before.
+        cap = min(max_s, base_s * (1.5 ** min(attempt, 1750)))
         return random.uniform(cap / 2.0, cap)
 
     return f
